@@ -495,12 +495,48 @@ func c15Others(t *rapid.T, ev *evProp) {
 		for i := range y {
 			y[i] = g.Scalar().Mul(gamma, x[pi[i]])
 		}
-		broken := rapid.Bool().Draw(t, "broken")
-		if broken {
+		bmode := rapid.SampledFrom([]string{"honest", "honest", "plus-one", "adaptive-t0"}).Draw(t, "broken")
+		broken := bmode != "honest"
+		switch bmode {
+		case "plus-one":
 			i := rapid.IntRange(0, k-1).Draw(t, "bi")
 			y[i] = g.Scalar().Add(y[i], g.Scalar().One())
+		case "adaptive-t0":
+			// A prover that chooses its OUTPUT after looking at the challenge it would get if the
+			// challenge did not depend on the statement: t0 is the first public coin of an empty
+			// transcript under this protocol name (obtained from the library itself by a prover that
+			// only asks for a coin).  y_0..y_{k-2} are free, y_{k-1} solves
+			// prod(y_i - gamma*t0) = gamma^k * prod(x_i - t0): at t = t0 the polynomial identity the
+			// simple shuffle tests holds although y is not a permutation of gamma*x.  Against a verifier
+			// whose t is bound to (X, Y) this is an ordinary wrong output.
+			var coin struct{ Zt kyber.Scalar }
+			_, _ = proof.HashProve(e.suite, "SimpleShuffle", func(pc proof.ProverContext) error { return pc.PubRand(&coin) })
+			if coin.Zt == nil {
+				bmode, broken = "honest", false
+				break
+			}
+			t0 := coin.Zt
+			gt := g.Scalar().Mul(gamma, t0)
+			num := g.Scalar().One()
+			for i := 0; i < k; i++ {
+				num.Mul(num, gamma)
+				num.Mul(num, g.Scalar().Sub(x[i], t0))
+			}
+			den := g.Scalar().One()
+			for i := 0; i < k-1; i++ {
+				y[i] = g.Scalar().Pick(st)
+				den.Mul(den, g.Scalar().Sub(y[i], gt))
+			}
+			if den.Equal(g.Scalar().Zero()) {
+				bmode, broken = "honest", false
+				for i := range y {
+					y[i] = g.Scalar().Mul(gamma, x[pi[i]])
+				}
+				break
+			}
+			y[k-1] = g.Scalar().Add(gt, g.Scalar().Div(num, den))
 		}
-		ctx := fmt.Sprintf("SimpleShuffle %s pi=%v broken=%v", e.desc, pi, broken)
+		ctx := fmt.Sprintf("SimpleShuffle %s pi=%v broken=%s", e.desc, pi, bmode)
 		ss := shuffle.SimpleShuffle{}
 		ss.Init(g, k)
 		var prf []byte
@@ -532,7 +568,7 @@ func c15Others(t *rapid.T, ev *evProp) {
 		if broken && err == nil && verr == nil {
 			violationOrKnown(t, ev, "C15/simple/sound", "simple shuffle proof for vectors that are not a gamma-scaled permutation accepted\n%s", ctx)
 		}
-		ev.Case(true, ctx, "shuffle-other:Simple", fmt.Sprintf("simple-broken:%v", broken))
+		ev.Case(true, ctx, "shuffle-other:Simple", "simple-broken:"+bmode)
 	}
 }
 
